@@ -25,9 +25,13 @@ class BitcoinVM(VM):
     INSTRUCTION_LOOKUP = make_instruction_lookup(opcodes.OPCODE_LIST)
     ScriptStreamer = BitcoinScriptStreamer
 
-    def pop_int(self) -> int:
+    def pop_int(self, max_size: int = 4) -> int:
+        v = self.pop()
+        if len(v) > max_size:
+            # numeric operands are limited to 4 bytes (5 for the lock time opcodes)
+            raise ScriptError("script number overflow", errno.UNKNOWN_ERROR)
         return self.IntStreamer.int_from_script_bytes(  # type: ignore[no-any-return]
-            self.pop(), require_minimal=bool(self.flags & VERIFY_MINIMALDATA)
+            v, require_minimal=bool(self.flags & VERIFY_MINIMALDATA)
         )
 
     def pop_nonnegative(self) -> int:
